@@ -234,7 +234,7 @@ def make_model(g, u, ntrait, mat0):
     r = g.random()
     misc = (lambda: g.normal(size=(int(g.integers(1, 5)), ntrait)) * float(g.choice([1.0, 10.0])))
     # (DenseLinearGenomicModel has the same limit code but is abstract in this tree: not drivable)
-    if r < 0.55 or mat0.shape[1] > 5000:
+    if r < 0.55 or mat0.shape[1] > 5000 or (r >= 0.90 and (mat0.shape[1] > 200 or m > 60)):   # (a fit needs an n x n eigenproblem)
         return DenseAdditiveLinearGenomicModel(beta=beta, u_misc=None, u_a=u.copy(), trait=trait), beta, True, u, "plain additive model"
     if r < 0.67:
         return (DenseAdditiveLinearGenomicModel(beta=beta, u_misc=misc(), u_a=u.copy(), trait=trait), beta, True, u,
